@@ -19,12 +19,16 @@ SNull == "null"
 N(ch) == Len(ch)
 
 (* ---- ratios, efficiencies, equivalent inertia from the declared relations ---- *)
+\* (rtype = "attr": a powertrain built by somebody else - the repository's own tests - whose declarations were not
+\*  observed; the relation attributes the element shows are used as they are)
 Ratio(ch, i) ==
-  CASE ch[i].rtype = "joint" -> "1"
+  CASE ch[i].rtype = "attr" -> RNorm(ch[i].ratioAttr)
+    [] ch[i].rtype = "joint" -> "1"
     [] ch[i].rtype = "gear"  -> RDiv(RFromInt(ch[i].teeth), RFromInt(ch[i - 1].teeth))
     [] ch[i].rtype = "worm"  -> RDiv(RFromInt(ch[i].teeth), RFromInt(ch[i - 1].teeth))   \* teeth = starts for a worm
 Eff(ch, i) ==
-  CASE ch[i].rtype = "joint" -> "1"
+  CASE ch[i].rtype = "attr" -> RNorm(ch[i].effAttr)
+    [] ch[i].rtype = "joint" -> "1"
     [] ch[i].rtype = "gear"  -> RNorm(ch[i].arg)
     [] ch[i].rtype = "worm"  ->
          LET cosA == WormRow(ch[i - 1].alpha).cos   tanB == TanOf(ch[i - 1].th) IN
@@ -53,8 +57,11 @@ LoadFn(ld, t, th, w) == RAdd(RAdd(RAdd(RAdd(ld.c0, RMul(ld.c1, w)), RMul(ld.c2, 
                              IF RGe(t, ld.ts) THEN ld.cs ELSE "0")
 LoadScale(ld, t, th, w) == RAdd(RAdd(RAdd(RAdd(RAbs(ld.c0), RAbs(RMul(ld.c1, w))), RAbs(RMul(ld.c2, th))), RAbs(RMul(ld.c3, t))), RAbs(ld.cs))
 
-Cl(z, f, eps, scale) == RLe(RAbs(RSub(z, f)), RMul(eps, scale))
-ClR(z, f, eps) == RLe(RAbs(RSub(z, f)), RMul(eps, RMax(RAbs(z), RAbs(f))))
+\* (Tiny: absolute slack for values at the bottom of the double range, where products lose their relative precision;
+\*  it is exactly 0 in the design model, whose arithmetic is exact)
+TinyOf(eps) == IF RSign(eps) = 0 THEN "0" ELSE "1e-300"
+Cl(z, f, eps, scale) == RLe(RAbs(RSub(z, f)), RAdd(RMul(eps, scale), TinyOf(eps)))
+ClR(z, f, eps) == RLe(RAbs(RSub(z, f)), RAdd(RMul(eps, RMax(RAbs(z), RAbs(f))), TinyOf(eps)))
 
 MotorOf(ch) == [Tmax |-> ch[1].Tmax, w0 |-> ch[1].w0, i0 |-> ch[1].i0, imax |-> ch[1].imax]
 
